@@ -138,6 +138,7 @@ int main(int argc, char **argv)
     int extpct = (int)vsa_param(3, 25), ntask = (int)vsa_param(4, 0);
     writepct = (int)vsa_param(5, 35);
     nestpct = (int)vsa_param(6, 15);
+    sc_shared = (int)vsa_param(7, 0);
     if (nes > MAX_ES)
         nes = MAX_ES;
     if (nes < 1)
